@@ -37,7 +37,12 @@ func main() {
 	knownPath := flag.String("known", "", "known findings file")
 	replay := flag.String("replay", "", "violations file to replay: re-runs the property named in it and prints the constructs")
 	list := flag.Bool("list", false, "list properties and rules")
+	dump := flag.String("dump", "", "development aid: universe:pkgsuffix:Recv:func")
 	flag.Parse()
+	if *dump != "" {
+		dumpFn(newWorld(*repo, false), *dump)
+		return
+	}
 
 	if *list {
 		var ids []string
